@@ -204,6 +204,11 @@ def step_records(states, hstates, gamma, box_anchor, box_side, ncell, periodic):
             if cons[0] < 0. or cons[4] < 0. or prim[0] < 0. or prim[4] < 0.:
                 nonneg = 0
         h = hs.get(k1, {})
+        # the proviso of the wall clause as the solver sees it: no FACE state ran into a boundary faster than 1.5 times its
+        # sound speed during this step (hook counter "fastwall"; the cell-centre test above alone misses faces whose
+        # extrapolated velocity is larger than the cell's)
+        if h.get("fastwall", 0) > 0:
+            slow = 0
         recs.append({"e": "step", "k": k1, "finite": finite if h.get("finite", 1) else 0, "nonneg": nonneg,
                      "clamps": h.get("clamps", 0), "slow": slow,
                      "dM": units(tot1[0] - tot0[0], sm), "dPx": units(tot1[1] - tot0[1], sp),
